@@ -60,6 +60,12 @@ nsync_time nsync_from_time_point_ (nsync_cpp_time_point_ tp) {
 	memset (&ts, 0, sizeof (ts));
 	ts.tv_sec = ns / NSYNC_NS_IN_S_;
 	ts.tv_nsec = (long) (ns - ts.tv_sec * NSYNC_NS_IN_S_);
+	if (ts.tv_nsec < 0) {
+		/* Division truncates toward zero; times before the epoch
+		   need tv_nsec in [0, 1e9) too.  */
+		ts.tv_nsec += NSYNC_NS_IN_S_;
+		ts.tv_sec--;
+	}
 	return (ts);
 }
 
